@@ -940,19 +940,10 @@ def _finish_modules(modules: dict) -> int:
     names (package-wide, because callers live in other modules), then per module the function locals,
     then the canonical spellings."""
     ref = _localnames()
-    if ref and not os.environ.get("VERIF_NO_ALPHA"):
-        # code moved between functions / classes is moved back first (sa/unmove.py), so that the body-fingerprint renamer
-        # below sees whole functions again
-        from . import unmove
-        for m in modules.values():
-            r = ref.get(m.relpath)
-            if r and r.get("__digest__") != m.digest and "__funcs__" in r:
-                rp = set(r["__funcs__"])
-                unmove.reattach(m.tree, rp)
-                unmove.specialise(m.tree, rp)
-                unmove.tail_returns(m.tree, rp)
-        unmove.inline_expr_helpers(modules, ref)
-    if not os.environ.get("VERIF_NO_ALPHA") and ref:
+    n_private = 0
+
+    def rename_pass() -> int:
+        """private-function names back to the reference names by body fingerprint (package-wide, callers live in other modules)"""
         from . import alpha
         mapping: dict[str, str] = {}
         defined: dict[str, int] = {}
@@ -976,9 +967,24 @@ def _finish_modules(modules: dict) -> int:
         if mapping:
             for m in modules.values():
                 alpha.apply_name_renames(m.tree, mapping)
-        n_private = len(mapping)
-    else:
-        n_private = 0
+        return len(mapping)
+
+    if ref and not os.environ.get("VERIF_NO_ALPHA"):
+        # 1. functions that were merely renamed get their reference names back, so that the un-move passes below only see helpers
+        #    that are really new
+        n_private += rename_pass()
+        # 2. code moved between functions / classes is moved back (sa/unmove.py)
+        from . import unmove
+        for m in modules.values():
+            r = ref.get(m.relpath)
+            if r and r.get("__digest__") != m.digest and "__funcs__" in r:
+                rp = set(r["__funcs__"])
+                unmove.reattach(m.tree, rp)
+                unmove.specialise(m.tree, rp)
+                unmove.tail_returns(m.tree, rp)
+        unmove.inline_expr_helpers(modules, ref)
+        # 3. clones made by `specialise` (and re-attached methods) get their reference names by body fingerprint
+        n_private += rename_pass()
     if ref and not os.environ.get("VERIF_NO_ALPHA"):
         for m in modules.values():
             r = ref.get(m.relpath)
